@@ -19,16 +19,16 @@ pub fn prop() -> Prop {
 fn spec() -> Spec {
     Spec {
         kinds: vec![
-            Kind { name: "detection", quick: 200_000, thorough: 10_000_000, serial: false },
-            Kind { name: "continuity", quick: 150_000, thorough: 6_000_000, serial: false },
+            Kind { name: "detection", quick: 1_000_000, thorough: 20_000_000, serial: false },
+            Kind { name: "continuity", quick: 500_000, thorough: 10_000_000, serial: false },
         ],
         rule: "detection: non-degenerate robot (64 sign patterns, zero / right-angle / uniform offsets) x q with model angle t5 = k*pi + delta, k=-2..2, delta = +-{0,1e-9,0.5,0.9}*band (must be reported singular) or +-{1.1,2,100}*band (must not), band = 0.01 degree; expectation decided geometrically from the angle between the J4 axis and the J6 axis of the reference chain. continuity: t5 = 0 exactly, requested pose = FK(q); (1) previous = q: first continuation answer must equal q; (2) previous = q with J4,J6 shifted by (+e,-e'): an answer on the same arm with J5 at the singularity must have moved J4 and J6 by the same model-angle amount. Evaluated only when the arm sensitivity ||J_wc^-1||_F <= 3 rad/m and no other IK branch is within 0.02 rad of singular. non-trivial = conclusive case; distinct = hash(robot, q)",
         assumptions: vec![
             "band edge: cases whose geometric deviation is within 1% of the band are not generated / inconclusive",
-            "continuity tolerance 4*S + 1e-9 per joint with S = 1.25e-7 * ||J_wc^-1||_F (sensitivity of the arm to the solver's 0.125 um singularity shift)",
+            "continuity tolerance 4*S + 1.5e-6 per joint with S = 1.25e-7 * ||J_wc^-1||_F (sensitivity of the arm to the solver's 0.125 um singularity shift) plus the solver's stated angular accuracy of 1e-6 rad",
             "the bound 3 rad/m on ||J_wc^-1||_F is the property's 'stated bound' as calibrated in DESIGN.md",
         ],
-        minimums: vec![("oracle_evals", 200_000, 10_000_000), ("detection.expected_singular", 50_000, 2_000_000), ("continuity.evaluated", 20_000, 1_000_000)],
+        minimums: vec![("oracle_evals", 1_000_000, 20_000_000), ("detection.expected_singular", 300_000, 6_000_000), ("continuity.evaluated", 100_000, 2_000_000)],
     }
 }
 
@@ -174,7 +174,10 @@ fn continuity(idx: u64, rng: &mut Rng, mon: &mut Mon) {
         mon.inconclusive("continuity:arm-not-found-in-tilted-solve");
         return;
     }
-    let s_tol = 4.0 * 1.25e-7 * sens + 1e-9;
+    // 4*S for the arm's reaction to the singularity shift, plus the solver's own angular accuracy
+    // (1e-6 rad): at an exactly singular pose the raw J4/J6 sum is only determined to that accuracy
+    // (observed 5e-7 once in 5e5 cases), and the redistributed J4, J6 inherit it
+    let s_tol = 4.0 * 1.25e-7 * sens + 1.5e-6;
     let signs = format!("{}{}", if rp.signs[3] < 0 { "-" } else { "+" }, if rp.signs[5] < 0 { "-" } else { "+" });
     let off_class = if rp.offsets[4] == 0.0 { "zero_j5_offset" } else { "nonzero_j5_offset" };
     mon.count("continuity.evaluated");
@@ -247,4 +250,49 @@ fn continuity(idx: u64, rng: &mut Rng, mon: &mut Mon) {
     if idx < 2 {
         mon.sample(json!({"kind": "continuity", "robot": robot_json(&robot), "q": jf(&q), "sensitivity": sens}));
     }
+}
+
+/// `opwmon child c05debug <replay.json>`: prints what the plain solver returns for the witness pose
+/// and for the three shifted poses the continuation solver tries.
+pub fn debug(path: &str) -> i32 {
+    let v: serde_json::Value = serde_json::from_str(&std::fs::read_to_string(path).unwrap()).unwrap();
+    let r = &v["detail"]["robot"];
+    let f = |k: &str| r[k].as_f64().unwrap();
+    let arr6 = |k: &str| -> [f64; 6] { std::array::from_fn(|i| r[k][i].as_f64().unwrap()) };
+    let rp = RParams { a1: f("a1"), a2: f("a2"), b: f("b"), c1: f("c1"), c2: f("c2"), c3: f("c3"), c4: f("c4"), offsets: arr6("offsets"), signs: arr6("signs").map(|x| x as i8), dof: 6 };
+    let q: [f64; 6] = std::array::from_fn(|i| v["detail"]["q"][i].as_f64().unwrap());
+    let kin = OPWKinematics::new(to_params(&rp));
+    let target = fk(&rp, &q);
+    println!("theta(q) = {:?}", rp.theta(&q));
+    for d in [[0.0, 0.0, 0.0], [1.25e-7, 0.0, 0.0], [0.0, 1.25e-7, 0.0], [0.0, 0.0, 1.25e-7]] {
+        let mut t = target;
+        t.p = add(t.p, d);
+        let sols = kin.inverse(&fr_to_iso(&t));
+        println!("shift {:?}: {} solutions", d, sols.len());
+        for s in &sols {
+            let g = fk(&rp, s);
+            println!("   {:?}  singular={} pos_err_to_unshifted={:.3e} rot_err={:.3e}", s, kin.kinematic_singularity(s).is_some(), pos_dist(&g, &target), rot_angle(&g.r, &target.r));
+        }
+    }
+    0
+}
+
+pub fn debug2(path: &str) -> i32 {
+    let v: serde_json::Value = serde_json::from_str(&std::fs::read_to_string(path).unwrap()).unwrap();
+    let r = &v["detail"]["robot"];
+    let f = |k: &str| r[k].as_f64().unwrap();
+    let arr6 = |k: &str| -> [f64; 6] { std::array::from_fn(|i| r[k][i].as_f64().unwrap()) };
+    let rp = RParams { a1: f("a1"), a2: f("a2"), b: f("b"), c1: f("c1"), c2: f("c2"), c3: f("c3"), c4: f("c4"), offsets: arr6("offsets"), signs: arr6("signs").map(|x| x as i8), dof: 6 };
+    let q0: [f64; 6] = std::array::from_fn(|i| v["detail"]["q"][i].as_f64().unwrap());
+    println!("robot {:?}", rp);
+    println!("measures {:?} psi3 {}", sing_measures(&rp, &q0), rp.psi3());
+    let kin = OPWKinematics::new(to_params(&rp));
+    for d in [0.0, 1e-9, 1e-6, 1e-3, 0.1] {
+        let mut q = q0;
+        q[4] += d;
+        let sols = kin.inverse(&fr_to_iso(&fk(&rp, &q)));
+        let found = sols.iter().any(|s| (0..3).all(|j| circ_dist(s[j], q[j]) < 1e-6));
+        println!("J5 offset {:e}: {} solutions, own arm branch present: {}", d, sols.len(), found);
+    }
+    0
 }
